@@ -170,3 +170,14 @@ claim('C10', 'other',
       'offsets. Float16 accuracy, the connection-table / order bit streams, zlib and the shipped corpus are NOT decided.',
       'trusts: the published layout table; regex-level extraction of the .pyx statements (fail-closed)',
       'DESIGN.md 3.D, 4/C10')
+claim('C11', 'other',
+      'exception-family analysis of the record iterators vs every explicit raise of the MDL/RDF/MRV layer; literal code-book '
+      'inversion for V2000/V3000 charge, isotope, radical and wedge codes; role-order / cumulative-offset check of the reaction '
+      'parsers; attribute-name agreement of the MRV writer and reader',
+      'decides: a damaged record cannot stop iteration (handlers cover the ValueError family and LookupError, every explicit '
+      'raise of the record parsers is inside that family, documented aborts are a frozen table); charge/wedge/property-line '
+      'code books are mutually inverse incl. the M  CHG rule for +-4; reaction roles are written and partitioned in the same '
+      'order with non-negative cumulative offsets; MRV attribute names agree. Column formatting, geometry and metadata text '
+      'round trip are NOT decided.',
+      'trusts: EXEMPT table of documented aborts in sa/props/c11.py',
+      'DESIGN.md 3.E, 4/C11')
